@@ -101,6 +101,18 @@ static std::string judge_valid(const std::string& text, const MV& root, const re
     }
     if (!target.empty()) return "error returned but the slice is not empty";
   }
+  // the StringView flavour of the pointer type must behave identically
+  {
+    JsonPointerView jv;
+    for (auto& st : path) {
+      if (st.is_key) jv /= JsonPointerNodeView(StringView(st.key.data(), st.key.size()));
+      else jv /= JsonPointerNodeView((int)st.idx);
+    }
+    StringView t2("sentinel");
+    ParseResult r2 = GetOnDemand(StringView(P.p, text.size()), jv, t2);
+    if (r2.Error() != r.Error() || r2.Offset() != r.Offset() || t2.size() != target.size() || (t2.size() && t2.data() != target.data()))
+      return "GetOnDemand with a JsonPointerView differs from the std::string pointer for path " + ps;
+  }
   // ParseOnDemand must agree
   {
     Document d;
